@@ -300,6 +300,8 @@ inline i_mep make_imep_len(splitmix &r, unsigned len)
     }
     }
   if (r.below(3) == 0) x = with_age(x, rnd_age(r), M().prob.sset);
+  // a sub-program taken as an individual on its own: the entry locus is any row, not [0,0]
+  if (r.below(4) == 0) x = x.get_block(locus{index_t(r.below(x.size())), 0});
   return x;
 }
 
